@@ -199,7 +199,7 @@ func (p *c09) RandomRuns(tier string) int {
 	if tier == "thorough" {
 		return 3000000
 	}
-	return 120000
+	return 300000
 }
 
 func (p *c09) twin(text string, opt bool, names []string, need int64) *c09Twin {
